@@ -5,7 +5,8 @@ PROP_FILES = ["Props/C16.v"]
 NEEDS_GEN = False
 TRUSTED = ["tools/swcref.py: independent declarative reference (sections, conventions for lengths, radius interpolation, groups)",
            "Model/Swc.v: the checker whose soundness is proved; it is run on the reader's output, the reader's loop itself is not modelled"]
-ASSUMPTIONS = ["well-formed SWC input (single tree, parents before children, depth-first); the for-all is tested on random trees"]
+ASSUMPTIONS = ["the sectioning loop of the reader is modelled line by line (Model/SwcRead.v), compared exactly with the code on every generated file and proved correct for every well-formed file; path lengths, radius functions and max_branch_len splitting are compared with an independent reference only",
+               "well-formed SWC input (single tree, parents before children, depth-first); the for-all is tested on random trees"]
 
 NAMES = {0: "undefined", 1: "soma", 2: "axon", 3: "basal", 4: "apical", 5: "custom"}
 
@@ -25,6 +26,8 @@ def run(ctx):
     viol, samples, distinct = [], [], set()
     evals = 0
     coq_jobs = []
+    loop_jobs = []
+    nloop = 0
     work = os.path.join(os.path.dirname(os.path.dirname(os.path.dirname(os.path.abspath(__file__)))), ".work")
     os.makedirs(work, exist_ok=True)
     path = os.path.join(work, f"gen_{os.getpid()}.swc")
@@ -95,6 +98,30 @@ def run(ctx):
         except Exception as ex:
             viol.append(dict(case, kind="read_swc with max_branch_len raised", max_branch_len=mbl, error=repr(ex)[:300],
                              finding_class="max_branch_len_on_coarse_tracing_raises" if coarse else None))
+        # the line-by-line model of the reader's sectioning loop (Model/SwcRead.v; C16_sectioning_loop_correct
+        # is a theorem about it) must produce exactly what the code's loop produces; the generated
+        # file must satisfy the theorem's well-formedness hypotheses
+        if ti < ctx.budget(25, 200):
+            try:
+                from jaxley.utils.cell_utils import _build_parents, _split_into_branches_and_sort
+                content = np.asarray(rows, dtype=float)
+                sps_ = bool(content[0, 1] == 1 and content[1, 1] != 1)
+                bs_, ts_ = _split_into_branches_and_sort(content, None, sps_)
+                ps_ = _build_parents(bs_)
+                real_loop = ([[int(x) for x in b_] for b_ in bs_], [int(x) for x in ts_], [None if int(p_) == -1 else int(p_) for p_ in ps_])
+                rr = "[" + "; ".join(f"({int(r[0])}, {int(r[1])}, {max(int(r[6]), 0)})" for r in rows) + "]"
+                loop_jobs.append((f"read_sections {rr} {'true' if sps_ else 'false'}", real_loop, case))
+                ids_ = [int(r[0]) for r in rows]
+                par_ = {int(r[0]): int(r[6]) for r in rows}
+                kids_ = {}
+                for c_, p_ in par_.items():
+                    kids_.setdefault(p_, []).append(c_)
+                wf_ok = ids_ == list(range(1, len(rows) + 1)) and par_[1] == -1 and all(1 <= par_[c_] < c_ for c_ in ids_[1:]) \
+                    and all(len(k_) != 1 or k_[0] == p_ + 1 for p_, k_ in kids_.items() if p_ >= 1)
+                if not wf_ok:
+                    viol.append(dict(case, kind="generated SWC file does not satisfy the hypotheses of C16_sectioning_loop_correct (generator error)", no_failing_input_found=True))
+            except Exception as ex:
+                viol.append(dict(case, kind="the reader's sectioning loop raised", error=repr(ex)[:300]))
         # the proved checker on what the reader produced (sections recovered from the xyzr coordinates)
         if ti < ctx.budget(25, 200):
             t = "[" + "; ".join(f"({int(r[1])}, {max(int(r[6]), 0)})" for r in rows) + "]"
@@ -104,6 +131,18 @@ def run(ctx):
         os.remove(path)
     except OSError:
         pass
+    try:
+        import ast
+        louts = coqeval.coq_eval(["Swc", "SwcRead"], [j[0] for j in loop_jobs], prelude="Close Scope Q_scope. Open Scope nat_scope.")
+        for (expr, real_loop, case), o in zip(loop_jobs, louts):
+            bs_m, (ts_m, ps_m) = ast.literal_eval(o.replace(";", ",").replace("Some ", ""))
+            model_loop = ([list(b_) for b_ in bs_m], list(ts_m), list(ps_m))
+            nloop += 1
+            if model_loop != real_loop:
+                viol.append(dict(case, kind="the reader's sectioning loop differs from its model Model/SwcRead.v (sections, types or parents)",
+                                 code=repr(real_loop)[:500], model=repr(model_loop)[:500]))
+    except Exception as ex:
+        viol.append({"kind": "the SwcRead correspondence could not be evaluated", "error": repr(ex)[:500], "no_failing_input_found": True})
     try:
         outs = coqeval.coq_eval(["Swc"], [j[0] for j in coq_jobs], prelude="Close Scope Q_scope. Open Scope nat_scope.")
         for (expr, case), o in zip(coq_jobs, outs):
@@ -124,7 +163,7 @@ def run(ctx):
     viol = out
     return {"evaluations": evals, "distinct_nontrivial": len(distinct),
             "rule": "random depth-first SWC trees (single- and multi-point somata, neurites starting at the root or at the soma end, type changes at branch points, 12-40 points), ncomp in 1..4, optional min_radius: sections/connectivity, branch types, lengths, radii at compartment centres and type groups against tools/swcref.py; independence of ncomp; max_branch_len keeps the total length; the reader's own sections run through the proved checker; distinct by (types, parents) of the file",
-            "samples": samples, "violations": viol[:20], "traces_validated_against_impl": len(coq_jobs)}
+            "samples": samples, "violations": viol[:20], "traces_validated_against_impl": len(coq_jobs), "sectioning_loops_compared_with_model": nloop}
 
 
 def _sections_from_impl(path):
